@@ -300,3 +300,184 @@ Proof.
   | |- exists _, _ => eexists
   end; vm_compute; reflexivity.
 Qed.
+
+(* ======================================================================================================================
+   the content path, composed (Model/ContentFull.v, Proofs/ContentFull.v): "an offered or looked-up content item together
+   with its content key never panics"
+
+   What the uTP stream of an accepted OFFER delivers goes through handle_offered_contents (C15: stream decoding, one item per
+   awaited key or nothing), then per (key, content) pair through the network's validator and the storage adapter:
+     history  validateContents of C02 (Model/History.v, variant repaired) whose header proof check is C03's
+              validate_header_and_proof ... true (Model/HeaderProof.v) over ANY pair hash: C02_never_panics' hypothesis
+              "the proof check does not panic" is discharged by C03_never_panics.  [hlib] = the library functions (keccak of
+              a header, the RLP / SSZ decoders, DeriveSha, CalcUncleHash), all universally quantified; [hacc] = pair hash,
+              embedded accumulators, and per call the summaries cache and the oracle's answer (arbitrary functions of the call);
+              the header source [src] and the network [lookup] are arbitrary functions.
+     state    key-type switch, the two Deserialize calls of the pair ([sl_dec_item]), C13's validate_content, then Put
+              (key-type switch, the same decoding, C13's put) under the content id; [slib] = keccak, node decoder, FullAccount,
+              the header source per step, the content id function.
+     beacon   key-type switch with the key decoders of C14; the content side of beacon/validation.go is DECODING ONLY
+              (Forked* Deserialize, fork digest / age / count comparisons; the light-client checks proper are C12's and are
+              not made here) and is the function [content_info]; the storage adapter's switch and the historical-summaries
+              record handling of Model/Dispatch.v.
+   STILL ABSTRACT: the library functions named above (hypothesis: they return - for state also that the node decoder yields
+   nodes of its own shape, as in C13_total); for state the two ztyp Deserialize calls: Model/WireState.v has the decoders
+   ([state_dec_item], used in the Example) but no totality theorem yet (C14 is partial there), so [sl_dec_item] carries a
+   no-panic hypothesis; pebble (Put / Get behind the adapters: C04 / C05 / C17); the ephemeral-header path of the history
+   network (keys 0x04 / 0x05: the validator refuses them, C02_other_selectors_rejected; the ephemeral store is not modelled);
+   the content queue, the ants pool and the Gossip call that follows a successful validateContents (C20); the oracle RPC.
+   ====================================================================================================================== *)
+From Shisui Require Import Gen.K_header Model.History Model.HeaderProof Model.StateTrie Model.ContentFull
+     Proofs.History Proofs.HeaderProof Proofs.StateTrie Proofs.ContentFull.
+
+(* ---- history *)
+(* one (key, content) pair: C02_never_panics with its hypothesis discharged by C03_never_panics; C03's only hypotheses remain *)
+Theorem C01_history_content_total : forall B A src key content,
+  K_PreMergeEpochs <= nlen (ha_epochs A) -> (forall h p, ha_oracle A h p <> Some Panic) ->
+  history_validate B A src key content <> Panic.
+Proof. exact (fun B A src key content H1 H2 => history_validate_total B A src key content (conj H1 H2)). Qed.
+Print Assumptions C01_history_content_total.
+
+(* history_validate is C02's validator (vc ... repaired) for the library [lib_of B A], whose proof check is C03's validator *)
+Theorem C01_history_validate_is_C02_over_C03 : forall B A,
+  history_validate B A = vc (lib_of B A) repaired /\
+  forall h proof, l_proof_check (lib_of B A) h proof =
+    validate_header_and_proof (ha_H A) true (ha_epochs A) (ha_roots A) (ha_sums A h proof) (ha_oracle A h proof)
+      (h_number h mod History.two64) (hl_hdr_hash B h) proof.
+Proof. intros B A. split; reflexivity. Qed.
+Print Assumptions C01_history_validate_is_C02_over_C03.
+
+(* every stream payload, every list of awaited keys, every header source, every library instantiation, every store *)
+Theorem C01_history_offered_content_total : forall B A src keys payload s,
+  K_PreMergeEpochs <= nlen (ha_epochs A) -> (forall h p, ha_oracle A h p <> Some Panic) ->
+  fst (fst (history_offered_contents B A src keys payload s)) <> Panic.
+Proof. exact (fun B A src keys payload s H1 H2 => history_offered_total B A src keys payload s (conj H1 H2)). Qed.
+Print Assumptions C01_history_offered_content_total.
+
+(* C02_offer_gates_put through the composition: only content bound to its key (genuine: for a header, one that C03's validator
+   accepted) reaches Put, the store stays bound, and every Put goes to the eternal store (never the ephemeral one) *)
+Theorem C01_history_offered_gates_put : forall B A src keys payload s r s' puts,
+  history_offered_contents B A src keys payload s = (r, s', puts) -> store_ok (lib_of B A) s ->
+  store_ok (lib_of B A) s' /\ Forall (gp (lib_of B A)) puts /\
+  Forall (fun p => history_storage_route (fst p) = Ok false) puts.
+Proof. exact history_offered_gates_put. Qed.
+Print Assumptions C01_history_offered_gates_put.
+
+(* an accepted header item passed the C03 validator for its own hash = the key's *)
+Theorem C01_history_header_accepted_by_C03 : forall B A src kh content,
+  history_validate B A src (x00 :: kh) content = Ok tt ->
+  exists hb proof h, hl_dec_hwp B content = Some (hb, proof) /\ hl_dec_header B hb = Some h /\ hl_hdr_hash B h = kh /\
+    validate_header_and_proof (ha_H A) true (ha_epochs A) (ha_roots A) (ha_sums A h proof) (ha_oracle A h proof)
+      (h_number h mod History.two64) kh proof = Ok tt.
+Proof. exact history_header_accept_is_c03. Qed.
+Print Assumptions C01_history_header_accepted_by_C03.
+
+(* looked-up content: the three getters (local store, else an arbitrary network answer, validated), C02_getter_never_panics
+   composed the same way ... *)
+Theorem C01_history_lookup_total : forall B A src lookup s hash,
+  K_PreMergeEpochs <= nlen (ha_epochs A) -> (forall h p, ha_oracle A h p <> Some Panic) ->
+  fst (fst (history_get_header B A src lookup s hash)) <> Panic /\
+  fst (fst (history_get_body B A src lookup s hash)) <> Panic /\
+  fst (fst (history_get_receipts B A src lookup s hash)) <> Panic.
+Proof. exact (fun B A src lookup s hash H1 H2 => history_getters_total B A src lookup s hash (conj H1 H2)). Qed.
+Print Assumptions C01_history_lookup_total.
+(* ... and C02_getter_returns_bound: what they return and store is the decoding of content bound to the requested hash *)
+Theorem C01_history_lookup_bound : forall B A src lookup s hash, store_ok (lib_of B A) s ->
+  (forall r s' p, history_get_header B A src lookup s hash = (r, s', p) ->
+     store_ok (lib_of B A) s' /\ Forall (gp (lib_of B A)) p /\
+     forall h, r = Ok h -> exists c, genuine (lib_of B A) (x00 :: hash) c /\ hdr_of (lib_of B A) c = Some h) /\
+  (forall r s' p, history_get_body B A src lookup s hash = (r, s', p) ->
+     store_ok (lib_of B A) s' /\ Forall (gp (lib_of B A)) p /\
+     forall b, r = Ok b -> exists c, genuine (lib_of B A) (x01 :: hash) c /\ hl_dec_body B c = Some b) /\
+  (forall r s' p, history_get_receipts B A src lookup s hash = (r, s', p) ->
+     store_ok (lib_of B A) s' /\ Forall (gp (lib_of B A)) p /\
+     forall x, r = Ok x -> exists c, genuine (lib_of B A) (x02 :: hash) c /\ hl_dec_receipts B c = Some x).
+Proof.
+  intros B A src lookup s hash Hs. split; [|split]; intros r s' p H.
+  - exact (history_get_header_bound B A src lookup s hash r s' p H Hs).
+  - exact (history_get_body_bound B A src lookup s hash r s' p H Hs).
+  - exact (history_get_receipts_bound B A src lookup s hash r s' p H Hs).
+Qed.
+Print Assumptions C01_history_lookup_bound.
+
+(* ---- state: the hypotheses are those of C13_total plus "the two Deserialize calls return" *)
+Theorem C01_state_content_total : forall L i key content,
+  (forall b n, sl_decode L b = Ok n -> wf_node n = true) ->
+  (forall b, sl_decode L b <> Panic) -> (forall b, sl_decode_account L b <> Panic) ->
+  (forall j b, sl_header L j b <> Panic) -> (forall t b c, sl_dec_item L t b c <> Panic) ->
+  state_validate L i key content <> Panic.
+Proof. exact (fun L i key content H1 H2 H3 H4 H5 => state_validate_total L i key content (conj H1 (conj H2 (conj H3 (conj H4 H5))))). Qed.
+Print Assumptions C01_state_content_total.
+
+(* every stream payload, every key list, every store: validate, then Put (which indexes proof[len-1]: safe because it runs
+   only after the validator accepted the same decoded pair, C13_put_after_accept) *)
+Theorem C01_state_offered_content_total : forall L keys payload s,
+  (forall b n, sl_decode L b = Ok n -> wf_node n = true) ->
+  (forall b, sl_decode L b <> Panic) -> (forall b, sl_decode_account L b <> Panic) ->
+  (forall j b, sl_header L j b <> Panic) -> (forall t b c, sl_dec_item L t b c <> Panic) ->
+  fst (state_offered_contents L keys payload s) <> Panic.
+Proof. exact (fun L keys payload s H1 H2 H3 H4 H5 => state_offered_total L keys payload s (conj H1 (conj H2 (conj H3 (conj H4 H5))))). Qed.
+Print Assumptions C01_state_offered_content_total.
+
+(* C13_history_store through the composition (no hypothesis): whatever is under a content id afterwards was there before, or
+   is the final node / the code of a pair of a known key type whose decoded form satisfied C13's chain predicate against the
+   header answer of its step *)
+Theorem C01_state_offered_store_bound : forall L keys payload s id v,
+  StateTrie.store_get (snd (state_offered_contents L keys payload s)) id = Some v ->
+  StateTrie.store_get s id = Some v \/
+  exists i t body content r, sl_cid L (t :: body) = id /\ In (b2n t) state_types /\
+    sl_dec_item L (b2n t) body content = Ok r /\
+    content_ok (sl_node_hash L) (sl_decode L) (sl_decode_account L) (sl_header L i) r /\
+    StateTrie.put (sl_node_hash L) r = Ok v /\ expected_stored r = Some v.
+Proof. exact (fun L keys payload s => state_offered_bound L keys payload s). Qed.
+Print Assumptions C01_state_offered_store_bound.
+
+(* ---- beacon: key dispatch of validator and storage adapter, key decoders, the historical-summaries record *)
+Theorem C01_beacon_key_dispatch_total : forall content_info db_put db_get key content st,
+  (forall t c, content_info t c <> Panic) -> (forall t b c, db_put t b c <> Panic) -> (forall t b, db_get t b <> Panic) ->
+  beacon_validate content_info key content <> Panic /\
+  beacon_put db_put key content st <> Panic /\
+  beacon_get db_get key st <> Panic.
+Proof.
+  exact (fun ci dp dg key content st H1 H2 H3 =>
+           conj (beacon_validate_total ci key content H1) (conj (beacon_put_total dp key content st H2) (beacon_get_total dg key st H3))).
+Qed.
+Print Assumptions C01_beacon_key_dispatch_total.
+
+(* every stream payload and key list; and the summaries record keeps its 8-byte epoch prefix through any offered contents *)
+Theorem C01_beacon_offered_content_total : forall content_info db_put keys payload st,
+  (forall i t c, content_info i t c <> Panic) -> (forall t b c, db_put t b c <> Panic) ->
+  fst (beacon_offered_contents content_info db_put keys payload st) <> Panic /\
+  (record_ok st -> record_ok (snd (beacon_offered_contents content_info db_put keys payload st))).
+Proof. exact beacon_offered_total. Qed.
+Print Assumptions C01_beacon_offered_content_total.
+
+(* non-vacuity: streams go through decode + validate + Put.
+   history: a pre-merge header (block 8197) with a REAL SHA-256 proof of 15 siblings against the second epoch root, then a
+   post-Shanghai body; state: an account-trie node of a two-node proof, key and content through the ztyp decoders of
+   Model/WireState.v; beacon: two historical-summaries items, the older one does not replace the newer record. *)
+Example C01_content_nonvacuous :
+  history_validate ex_hlib ex_hacc ex_src ex_header_key ex_header_content = Ok tt /\
+  history_offered_contents ex_hlib ex_hacc ex_src [ex_header_key; ex_body_key]
+      (encode_contents [ex_header_content; ex_body_content]) [] =
+    (Ok tt, [(ex_body_key, ex_body_content); (ex_header_key, ex_header_content)],
+            [(ex_header_key, ex_header_content); (ex_body_key, ex_body_content)]) /\
+  (* one item for two awaited keys: nothing is validated *)
+  history_offered_contents ex_hlib ex_hacc ex_src [ex_header_key; ex_body_key] (encode_contents [ex_header_content]) [] =
+    (Err E_COUNT, [], []) /\
+  (* the same header claiming to be block 8198: the body before it is stored, the header fails the Merkle check *)
+  history_offered_contents ex_hlib ex_hacc ex_src [ex_body_key; ex_header_key]
+      (encode_contents [ex_body_content; w_hash ++ [x06; x20] ++ concat (rev ex_sibs)]) [] =
+    (Err HeaderProof.E_MERKLE, [(ex_body_key, ex_body_content)], [(ex_body_key, ex_body_content)]) /\
+  state_dec_item T_AccountTrieNode (tl ex_state_key) (ex_state_content [[x02]; [x03]]) =
+    Ok (RAccountNode [x07] (pad32 [x03]) [[x02]; [x03]] (repeat x11 32)) /\
+  state_offered_contents ex_slib [ex_state_key] (encode_contents [ex_state_content [[x02]; [x03]]]) [] =
+    (Ok tt, [(firstn 3 ex_state_key, [x04; x00; x00; x00; x03])]) /\
+  state_offered_contents ex_slib [ex_state_key] (encode_contents [ex_state_content [[x02]]]) [] = (Err E_PATH_TOO_LONG, []) /\
+  beacon_offered_contents (fun _ _ c => Ok (le_dec (firstn 8 c))) (fun _ _ _ => Ok tt)
+      [[x14; x02; x00; x00; x00; x00; x00; x00; x00]; [x14; x01; x00; x00; x00; x00; x00; x00; x00]]
+      (encode_contents [[x02; x00; x00; x00; x00; x00; x00; x00; xaa]; [x01; x00; x00; x00; x00; x00; x00; x00; xbb]]) None =
+    (Ok tt, Some [x02; x00; x00; x00; x00; x00; x00; x00; x02; x00; x00; x00; x00; x00; x00; x00; xaa]) /\
+  beacon_offered_contents (fun _ _ c => Ok (le_dec (firstn 8 c))) (fun _ _ _ => Ok tt)
+      [[x14; x02]] (encode_contents [[x03]]) None = (Err E_STRICT, None).
+Proof. repeat match goal with |- _ /\ _ => split end; vm_compute; reflexivity. Qed.
